@@ -48,18 +48,33 @@ def main_chain(st):
     chain, side, cur = _chain_from(evs, Lin.const(0))
     # attach sub-chains (one level, which may itself carry sub-chains)
     def attach(chain, side):
-        for el in chain:
+        i = 0
+        while i < len(chain):
+            el = chain[i]
             if not side:
                 break
-            if el.kind in ("take_until", "take") and any(e[0] == "g" and e[3] == LINE and e[4] == el.start for e in side):
+            if el.kind in ("take_until", "take", "run") and any(e[0] == "g" and e[3] == LINE and e[4] == el.start for e in side):
                 sub, side2, end = _chain_from(side, el.start)
                 if sub:
-                    el.sub = sub
-                    el.sub_end = end
-                    side = attach(sub, side2)
+                    if st.decide(("le0", end - el.end)) is True:
+                        # the captured slice is parsed again
+                        el.sub = sub
+                        el.sub_end = end
+                        side = attach(sub, side2)
+                    elif i == len(chain) - 1:
+                        # the parse continues from where the capture started and goes beyond its end:
+                        # the capture was only looked at (`let (_, raw) = take_until(..)(data)?`), like peek
+                        chain[i:] = sub
+                        side = [("gp", el.kind, el.param, LINE, el.start, el.end)] + list(side2)
+                        nonlocal_cur[0] = end
+                        continue
+                    else:
+                        raise Unanalysable("input re-parsed from the start of an earlier element")
+            i += 1
         return side
+    nonlocal_cur = [cur]
     side = attach(chain, side)
-    return chain, side, cur
+    return chain, side, nonlocal_cur[0]
 
 
 def flatten_chain(chain):
